@@ -39,7 +39,7 @@ ENV_DECL = optgen.D([optgen.T(b"verbose", b"v", env=optgen.ENVP + b"T"),
                     pos=2, label="env-bound/required")
 ENV_POOL = [b"x", b"--a=b", b"-5", b"-", b"--", b"---", b"-=", b"a=b", b"x;y", b";", b"a;", b";;a",
             b" ", b"\xc3\xa4", b"yes ", b" 1", b"2", b"tru", b"TRUE", b"no", b"0", b"On", b"maybe",
-            b"-v", b"--out", b"a\nb"]
+            b"-v", b"--out", b"a\nb", b"a,b;c", b"p:q"]
 
 
 def nchunks(tier):
@@ -193,7 +193,138 @@ def evaluate(case, lines, S):
         S.samples.append(dict(optoracle.show(d, env, argv), outcome="parsing_error", reason=ex.reject))
 
 
+def decode_fuzz(data):
+    """same mapping as harness/fuzz_opt.cpp"""
+    if not data:
+        return None
+    d = data[0] % len(FAM)
+    body = data[1:]
+    toks = []
+    cur = b""
+    full = False
+    for b in body:
+        if b == 0:
+            toks.append(cur)
+            cur = b""
+            if len(toks) == 8:
+                full = True
+                break
+        else:
+            cur += bytes([b])
+    if not full and len(data) > 1:
+        toks.append(cur)
+    return {"decl": FAM[d], "env": {}, "argv": toks, "cls": "fuzz-corpus"}
+
+
+def fuzz_phase(run, S):
+    import glob
+    import hashlib
+    import os
+    import shutil
+    import subprocess
+    import build
+    import driver
+    work = os.path.join(build.CACHE, "fuzz-c04")
+    shutil.rmtree(work, ignore_errors=True)
+    os.makedirs(os.path.join(work, "corpus"))
+    os.makedirs(os.path.join(work, "inc"))
+    inc = optrun.fuzz_decls_inc(FAM)
+    with open(os.path.join(work, "inc", "fuzz_decls.inc"), "w") as fh:
+        fh.write(inc)
+    h = hashlib.sha256(inc.encode()).hexdigest()[:12]
+    exe = build.build_exe("cfuzz", ["fuzz_opt.cpp"], build.OPTIONS_SRCS,
+                          extra=["-I" + os.path.join(work, "inc"), "-DFUZZ_DECLS_HASH=0x" + h])
+    # seed corpus and dictionary from the token pools
+    toks = set()
+    for i, d in enumerate(FAM):
+        for cls, t in optgen.flat_pool(optgen.token_pool(d)):
+            toks.add(t)
+        with open(os.path.join(work, "corpus", "seed%d" % i), "wb") as fh:
+            fh.write(bytes([i]) + b"\0".join([b"--" + d["opts"][0]["name"], b"x", b"--"]))
+    with open(os.path.join(work, "dict"), "w") as fh:
+        for t in sorted(toks):
+            if 0 < len(t) < 40:
+                fh.write('"%s"\n' % "".join("\\x%02x" % c for c in t))
+    runs = int(os.environ.get("VERIF_FUZZ_RUNS", "300000"))
+    env = dict(os.environ)
+    env.update(driver.SAN_ENV)
+    env["ASAN_OPTIONS"] = env["ASAN_OPTIONS"] + ":quarantine_size_mb=8:detect_leaks=0"
+    cmd = [exe, "corpus", "-runs=%d" % (runs // 8), "-max_len=96", "-seed=%d" % run.seed, "-jobs=8", "-workers=8",
+           "-dict=dict", "-artifact_prefix=" + os.path.join(work, "art-"), "-print_final_stats=1", "-timeout=30"]
+    try:
+        p = subprocess.run(cmd, cwd=work, capture_output=True, timeout=3000)
+    except subprocess.TimeoutExpired:
+        run.inconc("fuzz campaign exceeded its wall-clock watchdog")
+        return {}
+    execs = 0
+    for log in glob.glob(os.path.join(work, "fuzz-*.log")):
+        txt = open(log, errors="replace").read()
+        import re
+        m = re.search(r"stat::number_of_executed_units:\s+(\d+)", txt)
+        if m:
+            execs += int(m.group(1))
+    cases = []
+    arts = sorted(glob.glob(os.path.join(work, "art-*")))
+    for f in arts:
+        c = decode_fuzz(open(f, "rb").read())
+        if c:
+            c["cls"] = "fuzz-artifact"
+            cases.append(c)
+    corpus = sorted(glob.glob(os.path.join(work, "corpus", "*")))
+    for f in corpus:
+        c = decode_fuzz(open(f, "rb").read())
+        if c:
+            cases.append(c)
+    # replay everything the fuzzer kept through the driver and the full reference model
+    import optcheck
+    part = optcheck._work(("c04", "thorough", run.seed, 9000, 1, "gasan", cases))
+    for key, what, case in part.viol:
+        run.violation("fuzz:" + key, what, case)
+    for r in part.inconc[:3]:
+        run.inconc(r)
+    return {"fuzz_executions": execs, "fuzz_corpus_files_replayed_through_model": len(corpus),
+            "fuzz_artifacts": len(arts)}
+
+
+def memcheck_phase(run, S):
+    import build
+    import driver
+    import shutil
+    if not shutil.which("valgrind"):
+        run.inconc("valgrind not available")
+        return {}
+    exe = optrun.optdrv("plain")
+    cases = gen("quick", run.seed, 0, 16)[:2000]
+    scripts = [("m%d" % i, script("m%d" % i, c)) for i, c in enumerate(cases) if sum(len(t) for t in c["argv"]) < 3000]
+    n = 0
+    jobs = [scripts[i::16] for i in range(16)]
+    for res in optrun.pmap(_memcheck_job, [(exe, j) for j in jobs]):
+        for cid, r in res.items():
+            n += 1
+            if r.status == "crash":
+                run.violation("memcheck:" + r.key, r.report[-3000:], {"memcheck_case": cid})
+            elif r.status in ("timeout", "watchdog"):
+                run.inconc("memcheck case %s: %s" % (cid, r.status))
+    return {"memcheck_cases": n}
+
+
+def _memcheck_job(arg):
+    import driver
+    exe, scripts = arg
+    scripts = [(cid, s.replace("CASE %s 10" % cid, "CASE %s 600" % cid)) for cid, s in scripts]
+    return driver.run_cases(exe, scripts, wrapper=["valgrind", "-q", "--error-exitcode=71", "--exit-on-first-error=yes",
+                                                   "--track-origins=no"])
+
+
 def finish(run, S, tier):
+    extra_phases = {}
+    if tier == "thorough" and not run.replay_of:
+        extra_phases.update(fuzz_phase(run, S))
+        extra_phases.update(memcheck_phase(run, S))
+    return dict(_finish(run, S, tier), **extra_phases)
+
+
+def _finish(run, S, tier):
     missing = [r for r in REASONS if S.counters.get("model-reject:" + r, 0) == 0]
     if missing:
         run.inconc("rejection conditions never exercised: %s" % missing)
@@ -204,4 +335,5 @@ def finish(run, S, tier):
 
 
 def run(tier, replay=None):
-    return optcheck.main("c04", tier, replay)
+    tags = ["gasan"] if tier == "quick" or replay else ["gasan", "casan"]
+    return optcheck.main("c04", tier, replay, tags=tags)
